@@ -200,7 +200,7 @@ pub const REQUIRED: &[&str] = &["empty_archive", "empty_file", "empty_name", "no
 
 pub fn run(cx: &mut Ctx) {
     cx.require(REQUIRED);
-    cx.rule = "ordered maps of 0..=40 distinct Shift-JIS-domain names (incl. the empty name, 2-byte characters, 31/32/33-byte names) to contents of length {0,1,31,32,33,63,64,65, random <= 4 KiB}; plus maps of 255, 256, 4096, 32767, 32768 and 65535 one-byte files (the count field is 16 bits). Each map is serialized, read by the strict reference reader (count, names, offsets 32-aligned, sizes) and parsed back; K conforming re-arrangements written by the reference builder (names after bodies, bodies reversed, extra padding, shared name storage) are fed to the parser. non-trivial = >=2 files with >=1 length not a multiple of 32; distinct by content hash".into();
+    cx.rule = "ordered maps of 0..=40 distinct Shift-JIS-domain names (incl. the empty name, 2-byte characters, 31/32/33-byte names) to contents of length {0,1,31,32,33,63,64,65, random <= 4 KiB}; plus maps of 255, 256, 4096, 32767, 32768 and 65535 one-byte files (the count field is 16 bits); plus bodies of 2^24+1, 2^24+31 and 2^25+2 bytes followed by further files. Each map is serialized, read by the strict reference reader (count, names, offsets 32-aligned, sizes) and parsed back; K conforming re-arrangements written by the reference builder (names after bodies, bodies reversed, extra padding, shared name storage) are fed to the parser. non-trivial = >=2 files with >=1 length not a multiple of 32; distinct by content hash".into();
     let miri = cfg!(miri);
     cx.case("directed", |c| {
         check(c, &vec![], 4);
@@ -239,6 +239,18 @@ pub fn run(cx: &mut Ctx) {
                 let name = if bytes % 2 == 1 { format!("x{}", kata) } else { kata };
                 let files: Files = vec![("first".into(), vec![1, 2, 3]), (name, vec![4; 40]), ("x".repeat(bytes), vec![]), ("last".into(), vec![5])];
                 check(c, &files, 2);
+            }
+        });
+    }
+    if !miri && cx.a.scale >= 0.24 {
+        // bodies just beyond 2^24 and 2^25 bytes (sizes a 32-bit float cannot hold exactly) that
+        // are FOLLOWED by another file: the next body must still start on the next multiple of 32
+        cx.case("bodies_beyond_16MiB_followed_by_another_file", |c| {
+            c.sit("body_longer_than_16MiB_followed_by_another_file");
+            for len in [(1usize << 24) + 1, (1 << 24) + 31, (1 << 25) + 2] {
+                let big: Vec<u8> = (0..len).map(|i| (i % 251) as u8).collect();
+                let files: Files = vec![("head".into(), vec![9; 5]), ("big.bin".into(), big), ("after".into(), vec![7; 33]), ("last".into(), vec![1])];
+                check(c, &files, 1);
             }
         });
     }
